@@ -12,7 +12,7 @@ RULE = (
     "pulled cell was not expanded; the evidence reports how many runs stopped at an internal cell; distinct = SHA-1 of the case."
 )
 ASSUMPTIONS = [
-    "HCT/VHCT parameters satisfy c1*delta <= 1/2 (delta~ caps inactive, DESIGN 2.2)",
+    "rounds whose t+ is below 2 c1 delta (one of the code's delta~ caps may be active) are not judged",
     "expansions are observed through a recording subclass of the partition class (no source hooks)",
 ]
 
